@@ -193,8 +193,14 @@ def dom_macro(ctx):
         for g in g_starts:
             cur = g[1][1]   # target of the true edge
             hops = 0
-            while cur != b and hops < 4 and body.term(cur)["k"] == "Goto":
-                cur = body.term(cur)["target"]
+            # straight-line continuation: blocks with exactly one (non-unwind) successor and no branch
+            while cur != b and hops < 12:
+                nxt = body.succ(cur)
+                if body.term(cur)["k"] in ("SwitchInt",) or len(nxt) != 1:
+                    break
+                if body.term(cur)["k"] == "Call" and T.canon(body.term(cur).get("resolved") or body.term(cur).get("callee") or "").endswith(("::starts_with", "::ends_with", "::is_empty", "::contains")):
+                    break
+                cur = nxt[0]
                 hops += 1
             ok1 = ok1 or cur == b
         straight = straight and ok1
@@ -223,6 +229,14 @@ def fld_input(ctx):
     ws = [w for w in field_writers(f, GDE, "data")]
     wi = [w for w in field_writers(f, GDE, "input")]
     n = 0
+
+    def same_value_as_data_write(fn_name, body_, val_):
+        """the value stored to .input is the very value this function stores to .data (e.g. both from one local `body`)"""
+        mine = body_.origins(val_)
+        for k3, fn3, body3, b3, i3, st3, val3 in ws:
+            if fn3 == fn_name and k3 == "assign" and mine and mine == body3.origins(body3.expr_of_rvalue(st3["rv"])):
+                return True
+        return False
     for kind, fn, body, b, i, st, val in ws:
         fnc = T.canon(fn)
         last = fnc.split("::")[-1]
@@ -260,7 +274,7 @@ def fld_input(ctx):
             for k2, fn2, body2, b2, i2, st2, val2 in wi:
                 if fn2 == fn and k2 == "assign":
                     v = body2.expr_of_rvalue(st2["rv"])
-                    if v[0] == "field" and v[2] == "data" or (v[0] == "deref" and _has_field(v, "data")):
+                    if v[0] == "field" and v[2] == "data" or (v[0] == "deref" and _has_field(v, "data")) or same_value_as_data_write(fn2, body2, v):
                         resync.append((b2, i2))
             ok = False
             if resync:
@@ -276,7 +290,7 @@ def fld_input(ctx):
         last = fnc.split("::")[-1]
         if kind == "construct":
             continue
-        ok = kind == "assign" and (val[0] == "field" and val[2] == "data" or (val[0] == "deref" and _has_field(val, "data")))
+        ok = kind == "assign" and (val[0] == "field" and val[2] == "data" or (val[0] == "deref" and _has_field(val, "data")) or same_value_as_data_write(fn, body, val))
         obs.append(Ob(r, "input:%s" % last, ok, "%s writes .input only as a copy of .data" % last, site=M.fmt_span(st["span"]), detail=M.show(val)))
     # backup() is the reader of the coupling
     bk = find_body(f, "EncodingContext>::backup", r)
